@@ -4,7 +4,7 @@
      small d    payload shorter than 2^31 bytes    ps_ok ps    per-sector progress is 0 or >= 16 (header atomic)
      old_ok F   the old file is absent/empty or has at least the 16 header bytes
      0 < now    the clock at load time is positive *)
-From CppcmsV Require Import Base.Tac Base.Sweep C18.Defs C18.Proofs C18.Crash C18.History C18.Sid C18.Full C18.Link gen.Gen_crc.
+From CppcmsV Require Import Base.Tac Base.Sweep C18.Defs C18.Proofs C18.Crash C18.History C18.Sid C18.Full C18.Link C18.Burst gen.Gen_crc.
 Local Open Scope N_scope.
 
 (* ---- 1. crash safety: every crash state of every save over every old file ----
@@ -70,6 +70,29 @@ Theorem C18_crash_safe_unconditional_refuted :
     ~ (res = None \/ res = Some (t, d) \/ res = read_from_file now F).
 Proof. exact crash_safe_unconditional_refuted. Qed.
 Print Assumptions C18_crash_safe_unconditional_refuted.
+
+(* ---- 2b. what the 32-bit CRC does guarantee: payloads of equal length that differ only inside a window of at most
+   4 consecutive bytes never share a CRC-32, so a torn state that differs from the new value only there is rejected ---- *)
+Theorem C18_crc32_burst_detected : forall pre x y suf,
+  bytes_ok pre -> bytes_ok x -> bytes_ok y -> bytes_ok suf ->
+  length x = length y -> (length x <= 4)%nat ->
+  crc32 (pre ++ x ++ suf) = crc32 (pre ++ y ++ suf) -> x = y.
+Proof. exact crc32_burst_detected. Qed.
+Print Assumptions C18_crc32_burst_detected.
+
+Theorem C18_torn_window_detected : forall now F t d p r t' d' pre x y suf,
+  s64_ok t -> bytes_ok d -> small d -> 16 <= p ->
+  read_from_file now (crash_file F (new_image t d) (p :: r)) = Some (t', d') ->
+  d = pre ++ y ++ suf -> d' = pre ++ x ++ suf -> bytes_ok x -> length x = length y -> (length x <= 4)%nat ->
+  d' = d.
+Proof. exact torn_window_detected. Qed.
+Print Assumptions C18_torn_window_detected.
+
+(* the bound is sharp: the witness differs from the new value in 5 consecutive bytes *)
+Example C18_burst_nonvacuous :
+  w_new = [98] ++ [72; 69; 76; 76; 79] ++ [] /\ w_mix = [98] ++ [9; 67; 61; 151; 78] ++ [] /\ crc32 w_new = crc32 w_mix /\
+  crc32 ([1] ++ [2; 3; 4; 5] ++ [6]) <> crc32 ([1] ++ [2; 3; 4; 6] ++ [6]).
+Proof. repeat split; try reflexivity. vm_compute. discriminate. Qed.
 
 (* ---- 3. what load returns lies inside the file and has the length of the header ---- *)
 Theorem C18_read_in_bounds : forall now f t' d', read_from_file now f = Some (t', d') ->
